@@ -225,6 +225,17 @@ def run_brew(case, workdir=None, keep=False):
         try:
             with mk.patched(CHUNK_SIZE_ROWS_PREDICTION=case.get("pred_chunk", 700000),
                             CHUNK_SIZE_READ_ALL_DATA=case.get("read_chunk", 200000)):
+                if case.get("prebrew_folds"):
+                    # an EARLIER rescoring of the same parsed collections in this process, with another fold count, on shallow
+                    # copies of the dataset objects (not recorded, its outcome does not matter); the judged run follows
+                    import copy as _copy
+                    try:
+                        pre = RModel(RecEst(kind="feat", col=case.get("col", 1), token=new_recorder()), scaler="as-is", train_fdr=1.0,
+                                     max_iter=1, direction="f1", override=True)
+                        mokapot.brew([_copy.copy(d) for d in dsets], pre, folds=int(case["prebrew_folds"]), max_workers=1, rng=7, test_fdr=1.0)
+                    except Exception:
+                        pass
+                    dsets = [_copy.copy(d) for d in dsets]
                 ret = mokapot.brew(dsets, model, **kw)
                 if case.get("refeed_seed") is not None and all(bool(m.is_trained) for m in ret[1]):
                     # the documented reuse flow: the fold models of this run score the same collection again in a second
